@@ -352,3 +352,35 @@ Proof.
   exists (1704852000 * 1000000000), (1704852000 * 1000000000).   (* 2024-01-10T02:00:00Z *)
   split; [lia|]. vm_compute. intros H. apply H. reflexivity.
 Qed.
+
+(* ------------------------------------------------------------------ the stored day of trace attribute rows
+   (model/ScanCases.v attrs_stored_day, tied to the real write path by harness spandate under 32 process zones) *)
+From Qryn Require Import model.ScanCases.
+
+Lemma attrs_stored_day_utc tz t : attrs_stored_day tz t = day_of_ns t.
+Proof.
+  unfold attrs_stored_day, day_of_ns, ns_per_day. rewrite Z.div_div by lia.
+  replace (1000000000 * 86400) with (86400 * 1000000000) by lia. reflexivity.
+Qed.
+
+(* every index date bound the reader writes for a window [from, to) keeps the rows of every span inside the
+   window, whatever the time zone of the writer process: date >= day(from), date >= FormatFromDate(from),
+   date <= day(to) *)
+Lemma attrs_day_in_bounds tz from to t :
+  from <= t < to ->
+  day_of_ns from <= attrs_stored_day tz t <= day_of_ns to /\ from_day from <= attrs_stored_day tz t.
+Proof.
+  intros [H1 H2]. rewrite attrs_stored_day_utc. split; [split|].
+  - unfold day_of_ns, ns_per_day. apply Z.div_le_mono; lia.
+  - unfold day_of_ns, ns_per_day. apply Z.div_le_mono; lia.
+  - apply from_day_covers. exact H1.
+Qed.
+
+(* the defect repaired by 71ffd5d: dated in the process zone, a span at 02:00 UTC written five hours west of
+   UTC was filed under the previous day, below the reader's lower bound *)
+Lemma attrs_day_local_lost :
+  exists tz from to t, from <= t < to /\ ~ day_of_ns from <= attrs_stored_day_local tz t.
+Proof.
+  exists (-18000), (1704852000 * 1000000000), (1704855600 * 1000000000), (1704852000 * 1000000000).
+  split; [lia|]. vm_compute. intros H. apply H. reflexivity.
+Qed.
